@@ -66,7 +66,8 @@ pub struct Case {
     pub server_waits_for_client: bool,
 }
 
-fn hello_doc(case: &Case) -> (String, Vec<String>) {
+/// the hello as an abstract tree (tree-level malformations applied) and its capability URIs
+pub fn hello_tree(case: &Case) -> (X, Vec<String>) {
     let mut uris: Vec<String> = Vec::new();
     if case.base10 {
         uris.push(BASE10.into());
@@ -127,6 +128,11 @@ fn hello_doc(case: &Case) -> (String, Vec<String>) {
             root = root.kid(s);
         }
     }
+    (root, uris)
+}
+
+fn hello_doc(case: &Case) -> (String, Vec<String>) {
+    let (root, uris) = hello_tree(case);
     let style = Style {
         base_prefix: case.prefixed.then(|| "nc".to_string()),
         ..Style::canonical()
@@ -189,7 +195,7 @@ fn expected(
     }
 }
 
-fn sid_strategy() -> impl Strategy<Value = Sid> {
+pub fn sid_strategy() -> impl Strategy<Value = Sid> {
     prop_oneof![
         8 => prop_oneof![1u32..1000, Just(u32::MAX), any::<u32>().prop_map(|n| n.max(1))].prop_map(Sid::Valid),
         1 => (1u32..1000).prop_map(Sid::LeadingZeros),
